@@ -17,7 +17,7 @@ from .values import EngineError
 from .report import Obligation as RepOb, BASELINE
 
 CONTRACT_MODULES = ['contracts.filter_kernels', 'contracts.transform_kernel', 'contracts.err',
-                    'contracts.validator',
+                    'contracts.validator', 'contracts.subsample_kernels',
                     'contracts.table_methods']
 
 REGISTRY = {}
